@@ -22,9 +22,13 @@ type verifIn struct {
 // recording controller
 type verifCtl struct {
 	calls []verifIn
+	onIn  func(id pipeline.SourceID, data []byte) // optional hook (scheduling point / monitors)
 }
 
 func (c *verifCtl) In(id pipeline.SourceID, name string, off pipeline.Offsets, data []byte, isNew bool, _ metadata.MetaData) uint64 {
+	if c.onIn != nil {
+		c.onIn(id, data)
+	}
 	c.calls = append(c.calls, verifIn{id, append([]byte(nil), data...)})
 	return uint64(len(c.calls))
 }
@@ -279,8 +283,31 @@ func VerifH_C11_concurrent() {
 	overlap := false
 	ya := &verifYieldReader{r: ra, other: rb, overlap: &overlap}
 	yb := &verifYieldReader{r: rb, other: ra, overlap: &overlap}
-	go func() { done <- p.processBulk(ya, nil) }()
-	go func() { done <- p.processBulk(yb, nil) }()
+	// a source id must not be used by two requests that are both still being served (In may block, e.g.
+	// on a full event pool, so the other request can run in the middle of it)
+	lastID := map[bool]pipeline.SourceID{}
+	seen := map[bool]bool{}
+	finished := map[bool]bool{}
+	ctl.onIn = func(id pipeline.SourceID, data []byte) {
+		isB := false
+		for _, x := range data {
+			if x >= 0x80 {
+				isB = true
+			}
+		}
+		if len(data) == 0 {
+			return
+		}
+		vf.Atomic(func() {
+			seen[isB], lastID[isB] = true, id
+			if seen[!isB] && !finished[!isB] {
+				vf.Assert(lastID[!isB] != id, "source-id-not-shared-by-two-active-requests")
+			}
+		})
+		vf.Yield()
+	}
+	go func() { err := p.processBulk(ya, nil); vf.Atomic(func() { finished[false] = true }); done <- err }()
+	go func() { err := p.processBulk(yb, nil); vf.Atomic(func() { finished[true] = true }); done <- err }()
 	e1 := <-done
 	e2 := <-done
 	vf.Assert(e1 == nil && e2 == nil, "no-errors")
